@@ -63,7 +63,36 @@ def _loads_noexpand(text):
         return {"include": f"{type(ex).__name__}"}
 
 
+def label_backgroundshadowsize_schema():
+    from . import vocab
+    import jsonschema
+
+    p = vocab.prop("label", "backgroundshadowsize")
+    node = {k: v for k, v in vocab.inlined("label")["properties"]["backgroundshadowsize"].items() if k not in ("default", "metadata")}
+    bad_default = bool(list(jsonschema.Draft4Validator(node).iter_errors(p.default))) if p.has_default else False
+    try:
+        d = _loads("LABEL BACKGROUNDSHADOWSIZE 1 2 END")
+        parsed = d.get("backgroundshadowsize")
+    except Exception as ex:
+        parsed = type(ex).__name__
+    if not bad_default and isinstance(parsed, list) and parsed and isinstance(parsed[0], (list, tuple)):
+        return None
+    return f"default {p.default!r} is invalid for the keyword's own schema (a list of pairs); BACKGROUNDSHADOWSIZE 1 2 parses to {parsed!r}"
+
+
+def symbol_block_alternative_unwritable():
+    try:
+        d = _loads("STYLE SYMBOL NAME 'x' END END")
+    except Exception as ex:
+        return f"STYLE SYMBOL NAME 'x' END END -> {type(ex).__name__}"
+    if isinstance(d.get("symbol"), dict):
+        return None
+    return f"an inline SYMBOL block in STYLE is stored under {[k for k in d.keys() if k != '__type__']} (the parent schema lists symbol.json under 'symbol')"
+
+
 REPRO = {
+    "label-backgroundshadowsize-schema": label_backgroundshadowsize_schema,
+    "symbol-block-alternative-unwritable": symbol_block_alternative_unwritable,
     "unquoted-absolute-path-lexed-as-regex": unquoted_absolute_path_lexed_as_regex,
     "include-inside-key-value-block-no-expand": include_inside_kv_block_no_expand,
     "mod-at-comparison-level": mod_at_comparison_level,
